@@ -283,7 +283,8 @@ impl Monitor for C17 {
     fn run_case(&self, stream: &str, idx: u64, seed: u64, rec: &mut Recorder) {
         if stream == "c17-any" {
             let names = ["v2-ctl-s", "v2-ctl-s", "v2-cut", "v2-rand", "v2-mix", "v2-valid"];
-            let name = names[(idx % 6) as usize];
+            // one case in 512: a header of the fingerprint-collision workload (spec::collide)
+            let name = if idx % 512 == 511 { "v2-collide" } else { names[(idx % 6) as usize] };
             crate::c02::SCRATCH.with(|b| {
                 let mut b = b.borrow_mut();
                 spec::v2::v2_case(name, idx, seed, &mut b);
